@@ -37,9 +37,13 @@ COMPARE = {"less": np.less, "less_equal": np.less_equal, "greater": np.greater, 
            "equal": np.equal, "not_equal": np.not_equal}
 
 
-def mk_signal(S, cls, name, shape, sr_unit=u.kHz):
+def mk_signal(S, cls, name, shape, sr_unit=u.kHz, int_data=False):
     cplx = issubclass(cls, pb.BasebandSignal)
-    data = S.carray(name, shape) if cplx else S.rarray(name, shape)
+    if int_data:
+        raw_ = S.iarray(name, shape, -20, 20)
+        data = SymND(raw_, np.int64) if S.symbolic else np.asarray(raw_, dtype=np.int64)
+    else:
+        data = S.carray(name, shape) if cplx else S.rarray(name, shape)
     sr, t0 = S.real(name + "_sr"), S.real(name + "_t0")
     S.assume(sr > Fraction(1, 100))
     S.assume(sr < 10**6)
@@ -98,9 +102,9 @@ class Ufunc(Unit):
     functions = ("pulsarbat.core:Signal.__array_ufunc__", "pulsarbat.core:Signal.like", "pulsarbat.core:Signal.__array__")
     witnesses = 0
 
-    def __init__(self, cls, fname, arrangement, shape=(2,)):
-        self.cls, self.fname, self.arr, self.shape = cls, fname, arrangement, tuple(shape)
-        self.name = f"ufunc-{cls.__name__}-{fname}-{arrangement}-{'x'.join(map(str, shape))}"
+    def __init__(self, cls, fname, arrangement, shape=(2,), int_data=False):
+        self.cls, self.fname, self.arr, self.shape, self.int_data = cls, fname, arrangement, tuple(shape), int_data
+        self.name = f"ufunc-{cls.__name__}-{fname}-{arrangement}-{'x'.join(map(str, shape))}" + ("-int" if int_data else "")
         self.bounds = {"class": cls.__name__, "ufunc": fname, "operands": arrangement, "shape": list(shape)}
 
     def _shape(self):
@@ -109,8 +113,8 @@ class Ufunc(Unit):
 
     def build(self, S):
         shp = self._shape()
-        a = mk_signal(S, self.cls, "a", shp)
-        b = mk_signal(S, self.cls, "b", shp, sr_unit=u.Hz)
+        a = mk_signal(S, self.cls, "a", shp, int_data=self.int_data)
+        b = mk_signal(S, self.cls, "b", shp, sr_unit=u.Hz, int_data=self.int_data)
         cplx = issubclass(self.cls, pb.BasebandSignal)
         arr = S.carray("c", shp) if cplx else S.rarray("c", shp)
         w = S.real("w")
@@ -187,6 +191,8 @@ class Ufunc(Unit):
         if kind == "out":
             checks.append(("out-object-returned", z3.BoolVal(not out["identity"])))
         checks += same_values(S, got.data, want, "")
+        if not S.symbolic and hasattr(want, "dtype") and hasattr(got.data, "dtype"):
+            checks.append(("dtype", z3.BoolVal(np.dtype(got.data.dtype) != np.dtype(want.dtype))))
         checks += same_meta(S, out["first"], got, "")
         return checks
 
@@ -280,6 +286,12 @@ def units(tier):
             us.append(Ufunc(cls, "pair", "sig-scalar"))
             us.append(Ufunc(cls, "pair", "scalar-sig"))
             us.append(Ufunc(cls, "pair", "out-tuple"))
+    # integer-valued signal data with real scalars / arrays (result must be the promoted values)
+    for fn in ("multiply", "add", "subtract", "true_divide"):
+        us.append(Ufunc(pb.Signal, fn, "sig-scalar", int_data=True))
+        us.append(Ufunc(pb.Signal, fn, "scalar-sig", int_data=True))
+    us.append(Ufunc(pb.Signal, "multiply", "sig-sig", int_data=True))
+    us.append(Ufunc(pb.Signal, "less", "sig-scalar", int_data=True))
     for fn in COMPARE:
         us.append(Ufunc(pb.Signal, fn, "sig-sig"))
         us.append(Ufunc(pb.Signal, fn, "scalar-sig"))
